@@ -3,6 +3,7 @@ Oracle ops for the `ptr` family (C16): jsontext.Pointer methods and appendStackP
 
   ptr valid h | contains h1 h2 | parent h | last h | append h tok | tokens h | esc h | unesc h
   ptr sp w t1 t2 …    model of appendStackPointer(nil, w) after the token history   (w ∈ -1 0 1)
+  ptr spm w t1 t2 …   the same on the packed state machine (Model/State.lean) + names stack
   ptr spec w t1 t2 …  render (pointerOf w history)                                   (the declarative side)
       tokens: `{` `}` `[` `]` `l` (literal/number) `s<hex>` (string; `s-` = empty)
 Answers: hex byte strings (`-` = empty), `0`/`1`, token lists as `n tok1 … tokn`, `E` = rejected history / panic.
@@ -64,6 +65,13 @@ def handle (op : String) (args : List String) : String :=
         | some b => hexOfBytes b
         | none => "E"
       | none => "E"
+    | _, _ => badArgs
+  | "spm", w :: hist => match parseWhere w, parseHist hist with
+    | some w, some hist => match MState.run 10000 {} hist with
+      | .ok s => match s.appendStackPointer [] w with
+        | some b => hexOfBytes b
+        | none => "E"
+      | .error _ => "E"
     | _, _ => badArgs
   | "spec", w :: hist => match parseWhere w, parseHist hist with
     | some w, some hist => match Spec.Pointer.pointerOf w hist with
